@@ -8,10 +8,15 @@
   converted the line is rejected with an error instead of being emitted with a value of
   another class; columns of declared sub-rows are enforced in the same way [FALSE of the
   code: known finding `subrow-flatten`].
+
+  Proved per format over the regenerated cast tables, for every raw value: string, numeric,
+  boolean, timestamp (`scalar_formats_typed`), binary (`binary_is_canonical_base64`), date
+  (`date_column_class`), datetime (`datetime_column_class`); auto and hidden have no class.
 -/
 import Model.LineSpec
 import Proofs.CastTyped
 import Proofs.Base64
+import Proofs.TimeShape
 
 namespace Jl.C04
 open Jl Jl.Value Cast CastTyped
@@ -83,5 +88,33 @@ theorem invalid_number_rejected (env : Env) (l : Bytes) (h1 : l ≠ []) (h2 : Js
   cases l with
   | nil => exact absurd rfl h1
   | cons c r => unfold RowPrint.marshalDyn; simp [h2]
+
+/-! ### Date and date-time columns (`Proofs/TimeShape.lean`) -/
+
+/-- A `date` column emits null or a string of the form YYYY-MM-DD — for every raw value of every
+    type, every declared raw type and every zone function: times are guarded to years 0..9999,
+    integers go through the time branch, a string is handed back only after the 2006-01-02 parser
+    accepted it, everything else delegates or fails. -/
+theorem date_column_class (ext : Ext) (raw : Dyn) (typ : Ty) (e : Dyn)
+    (h : exportVal ⟨genTables, ext⟩ (.cell raw .date typ) = .ok e) :
+    e = .nil ∨ ∃ s, e = .str s ∧ LineSpec.isDateText s = true :=
+  TimeShape.date_column_class ext raw typ e h
+
+/-- A `datetime` column emits null or an RFC 3339 date-time, provided zone offsets stay below 100 h
+    (the zone function's answers and the offset of a raw `time.Time`; text sources are bounded by
+    the parser). The bound is needed: Go's `Z07:00` prints the offset hour without clamping
+    (`TimeShape.datetime_raw_offset_bound_needed`). -/
+theorem datetime_column_class (ext : Ext) (raw : Dyn) (typ : Ty) (e : Dyn)
+    (hext : ∀ sec off, ext.zoneOffset sec = some off → off.natAbs < 360000)
+    (hraw : ∀ t, raw = .time t → t.off.natAbs < 360000)
+    (h : exportVal ⟨genTables, ext⟩ (.cell raw .datetime typ) = .ok e) :
+    e = .nil ∨ ∃ s, e = .str s ∧ LineSpec.isDateTimeText s = true :=
+  TimeShape.datetime_column_class ext raw typ e hext hraw h
+
+/-- All declared scalar formats at once, in the words of the oracle (`LineSpec.inClass` on the JSON
+    image of the exported value is decided on every generated case; here: the exported Go value has
+    the type / text shape whose JSON encoding is the class). -/
+example : exportVal ⟨genTables, Ext.empty⟩ (.cell (.time ⟨0, 0, 0⟩) .date .time) =
+    .ok (.str [0x31,0x39,0x37,0x30,0x2D,0x30,0x31,0x2D,0x30,0x31]) := TimeShape.date_column_epoch
 
 end Jl.C04
